@@ -241,6 +241,10 @@ def update_lbfgs_matrices(
     # Case of a vector
     is_current_update_accepted: bool = update_X_and_G(xk, gk, X, G, maxcor, eps)
 
+    if is_force_update and len(X) < 2:
+        # no correction pair left: back to the initial matrices
+        return LBFGSB_MATRICES(xk.size)
+
     # two conditions to update the inverse Hessian approximation
     if is_force_update or is_current_update_accepted:
         # yk and sk: These correction pairs contain information about the curvature of
